@@ -1,11 +1,28 @@
-import TinysetModel.Proofs.Consts
-/-! C13 — see /verif/properties.jsonl.  Theorems for this property are being added; the ones
-below are the obligations checked so far. -/
+import TinysetModel.Proofs.IterSpec
+import TinysetModel.Proofs.CfgInst
+/-! C13 — iterator shortcuts (size_hint/count/min/max/last) agree with plain iteration.
+`ck` is the cursor after `j` calls of `next` (any `j`, also past the end); `(elems c r).drop j` is
+what plain iteration would still yield from there.  The model functions `SC.last/min/max` follow the
+layout-specific shortcuts of the Rust code (whole-table scans for a fresh bitmap cursor, `a[index..]`
+for the plain table, top bit of the last non-zero word for the dense set, …). -/
 namespace C13
 open SC
 
-/-- the model's constants are the ones in the current source -/
-theorem consts_match : TinyC.codec64.splits = Gen.bitsplits64 ∧ TinyC.codec32.splits = Gen.bitsplits32 :=
-  ⟨bitsplits64_match, bitsplits32_match⟩
+variable {c : Cfg} {r : Rp} {j : Nat} {ck : Cursor}
+
+theorem count_exact (ok : CfgOK c) (wf : WF c r) (h : advance c r j (cursorOf r) = .ok ck) : count ck = ((elems c r).drop j).length :=
+  count_after ok wf h
+theorem size_hint_exact (ok : CfgOK c) (wf : WF c r) (h : advance c r j (cursorOf r) = .ok ck) :
+    sizeHint ck = (((elems c r).drop j).length, some ((elems c r).drop j).length) := sizeHint_after ok wf h
+theorem last_agrees (ok : CfgOK c) (wf : WF c r) (h : advance c r j (cursorOf r) = .ok ck) : last c r ck = .ok ((elems c r).drop j).getLast? :=
+  last_after ok wf h
+theorem min_agrees (ok : CfgOK c) (wf : WF c r) (h : advance c r j (cursorOf r) = .ok ck) : SC.min c r ck = .ok ((elems c r).drop j).min? :=
+  min_after ok wf h
+theorem max_agrees (ok : CfgOK c) (wf : WF c r) (h : advance c r j (cursorOf r) = .ok ck) : SC.max c r ck = .ok ((elems c r).drop j).max? :=
+  max_after ok wf h
+
+/-- the cursor for every position exists (so the hypotheses above are satisfiable for every `j`) -/
+theorem cursor_exists (ok : CfgOK c) (wf : WF c r) (j : Nat) : ∃ ck, advance c r j (cursorOf r) = .ok ck :=
+  let ⟨ck, h, _⟩ := advance_drain ok wf j; ⟨ck, h⟩
 
 end C13
